@@ -99,3 +99,357 @@ CONTRACTS = [
         native={'gen': _gen_int, 'build': _build_int},
     ),
 ]
+
+
+# =====================================================================================================================
+# value derivation and string/binary fields: contracts checked by the bounded native stand-in for now
+# =====================================================================================================================
+import specs.refsem as _R   # noqa: E402
+from contracts.comparisons import _enc, _dec, mk_value   # noqa: E402
+
+NATIVE_ENV = {k: getattr(_R, k) for k in dir(_R) if not k.startswith('_')}
+PENDING = ("contract evaluated by the bounded native stand-in only: the reference decoder (specs/refsem.py) is stated "
+           "over dynamically typed definition objects; not yet translated by the symbolic front end")
+
+SPECIAL_FLOATS = {16: ['0000', '8000', '7c00', 'fc00', '7e00', '0001', '03ff', '3c00', 'c000', '7bff'],
+                  32: ['00000000', '80000000', '7f800000', 'ff800000', '7fc00000', '00000001', '007fffff',
+                       '3f800000', 'c0490fdb', '7f7fffff'],
+                  64: ['0000000000000000', '8000000000000000', '7ff0000000000000', 'fff0000000000000',
+                       '7ff8000000000000', '0000000000000001', '000fffffffffffff', '3ff0000000000000',
+                       'c00921fb54442d18', '7fefffffffffffff']}
+
+
+def _mk_cal(spec):
+    from space_packet_parser.xtce import calibrators as c
+    if spec is None:
+        return None
+    if spec[0] == 'poly':
+        return c.PolynomialCalibrator([c.PolynomialCoefficient(coefficient=a, exponent=n) for a, n in spec[1]])
+    return c.SplineCalibrator([c.SplinePoint(raw=a, calibrated=b) for a, b in spec[1]], order=spec[2], extrapolate=spec[3])
+
+
+def _mk_ctx(specs):
+    from space_packet_parser.xtce import calibrators as c, comparisons as m
+    if specs is None:
+        return None
+    out = []
+    for crit, cal in specs:
+        mc = [m.Comparison(lit, ref, operator=op, use_calibrated_value=uc) for ref, op, lit, uc in crit]
+        out.append(c.ContextCalibrator(mc, _mk_cal(cal)))
+    return out
+
+
+def _mk_numeric(r):
+    from space_packet_parser.xtce import encodings as e
+    kw = dict(byte_order=r['order'], default_calibrator=_mk_cal(r.get('default')),
+              context_calibrators=_mk_ctx(r.get('ctx')))
+    if r['kind'] == 'int':
+        return e.IntegerDataEncoding(r['w'], r['enc'], **kw)
+    return e.FloatDataEncoding(r['w'], encoding=r['enc'], **kw)
+
+
+def _mk_pkt(r):
+    from space_packet_parser.packets import CCSDSPacket
+    p = CCSDSPacket(raw_data=bytes.fromhex(r['buf']))
+    p.raw_data.pos = r['off']
+    for name, spec in r.get('items', []):
+        p[name] = mk_value(spec)
+    return p
+
+
+def _rand_cal(rng):
+    k = rng.choice(['poly', 'poly', 'spline'])
+    if k == 'poly':
+        return ['poly', [[rng.choice([0.5, 1.0, 2.0, -1.5, 150.0]), n] for n in range(rng.randint(1, 3))]]
+    xs = sorted(rng.sample(range(0, 300, 7), rng.randint(2, 4)))
+    return ['spline', [[float(x), float(rng.randint(-9, 9))] for x in xs], rng.choice([0, 1]), True]
+
+
+def _gen_numeric(rng, tier, variant):
+    """integer encodings (widths 1..33, 40, 64, 72; unsigned/signed/twosComplement; both byte orders; bit offsets
+    0..15) and float encodings (IEEE754 16/32/64 and MILSTD_1750A, both byte orders; special bit patterns: zeros,
+    signed zero, inf, NaN, subnormals, max) with no calibrator / default polynomial / default spline / context
+    calibrator lists (criteria on an earlier parameter and on the field's own raw value) with and without default"""
+    encs = ['unsigned', 'signed', 'twosComplement']
+    orders = ['mostSignificantByteFirst', 'leastSignificantByteFirst']
+    n = 700 if tier == 'quick' else 12000
+    for i in range(n):
+        off = rng.choice([0, 0, 1, 3, 5, 7, 8, 13])
+        mode = rng.randint(0, 2)
+        items = [['MODE', ['IntParameter', mode, None]], ['LVL', ['FloatParameter', _enc(float(rng.randint(0, 3))), rng.randint(0, 3)]]]
+        calkind = rng.choice(['none', 'none', 'default', 'ctx', 'ctx+default'])
+        default = _rand_cal(rng) if 'default' in calkind else None
+        ctx = None
+        if 'ctx' in calkind:
+            ctx = []
+            for _ in range(rng.randint(1, 3)):
+                crit = [[rng.choice(['MODE', 'MODE', 'LVL', 'SELF']), rng.choice(['==', '>=', '<', '!=']),
+                         str(rng.randint(0, 3)), rng.choice([True, False])] for _ in range(rng.randint(1, 2))]
+                ctx.append([crit, _rand_cal(rng)])
+        if rng.random() < 0.55:
+            w = rng.choice(list(range(1, 34)) + [40, 64, 72])
+            order = rng.choice(orders) if w % 8 == 0 else 'mostSignificantByteFirst'
+            nbytes = (off + w + 7) // 8 + rng.choice([0, 1])
+            buf = rng.choice([bytes(nbytes), b'\xff' * nbytes, bytes(rng.getrandbits(8) for _ in range(nbytes))])
+            yield {'kind': 'int', 'w': w, 'enc': rng.choice(encs), 'order': order, 'off': off, 'buf': buf.hex(),
+                   'items': items, 'default': default, 'ctx': ctx}
+        else:
+            enc = rng.choice(['IEEE754', 'IEEE754', 'IEEE754_1985', 'MILSTD_1750A'])
+            w = 32 if enc == 'MILSTD_1750A' else rng.choice([16, 32, 64])
+            order = rng.choice(orders)
+            if enc != 'MILSTD_1750A' and rng.random() < 0.5 and not (default or ctx):
+                fb = bytes.fromhex(rng.choice(SPECIAL_FLOATS[w]))
+                if order == 'leastSignificantByteFirst':
+                    fb = fb[::-1]
+            elif enc != 'MILSTD_1750A' and (default or ctx):
+                # calibrated floats: moderate magnitudes only (overflow / rounding of float arithmetic is not claimed, S3)
+                import struct
+                fb = struct.pack({16: '>e', 32: '>f', 64: '>d'}[w], rng.choice([0.0, 1.5, -2.25, 100.0, 255.0, -0.5]))
+                if order == 'leastSignificantByteFirst':
+                    fb = fb[::-1]
+            else:
+                fb = bytes(rng.getrandbits(8) for _ in range(w // 8))
+            total = (off + w + 7) // 8 + 1
+            val = int.from_bytes(fb, 'big') << (total * 8 - off - w)
+            noise = rng.getrandbits(off) << (total * 8 - off) if off else 0
+            buf = (val | noise).to_bytes(total, 'big')
+            # calibration of NaN/inf is outside the claim (S3): only calibrate finite values
+            fin = not (enc != 'MILSTD_1750A' and fb.hex() in [h if order != 'leastSignificantByteFirst' else bytes.fromhex(h)[::-1].hex()
+                                                               for h in SPECIAL_FLOATS[w][2:5]])
+            yield {'kind': 'float', 'w': w, 'enc': enc, 'order': order, 'off': off, 'buf': buf.hex(), 'items': items,
+                   'default': default if fin else None, 'ctx': ctx if fin else None}
+
+
+def _build_numeric(r):
+    def make():
+        import warnings
+        warnings.simplefilter('ignore')
+        r2 = dict(r)
+        if r2.get('ctx'):
+            # criteria on 'SELF' reference the field itself (not yet in the packet): resolved against the current raw value
+            r2['ctx'] = [[[[('THIS_FIELD' if ref == 'SELF' else ref), op, lit, uc] for ref, op, lit, uc in crit], cal]
+                         for crit, cal in r2['ctx']]
+        return {'self': _mk_numeric(r2), 'packet': _mk_pkt(r2)}
+    return {'make': make}
+
+
+_NUM_REF = 'ref_numeric_parse(self, packet, old(packet.raw_data.pos))'
+
+CONTRACTS += [
+    Contract(
+        target='xtce.encodings.NumericDataEncoding.parse_value',
+        props=['C04', 'C08', 'C01'],
+        params={}, native_only=PENDING,
+        requires=['self.size_in_bits >= 1', 'packet.raw_data.pos >= 0',
+                  'packet.raw_data.pos + self.size_in_bits <= 8 * len(packet.raw_data)'],
+        ensures={
+            # value, raw value and class (int / float; calibrated results are floats) as XTCE prescribes
+            'value': f'numeric_matches(result, {_NUM_REF})',
+            'cursor': f'packet.raw_data.pos == {_NUM_REF}[3]',
+        },
+        raises={'CalibrationError': "outcome(ref_numeric_parse(self, packet, packet.raw_data.pos)) == 'CalibrationError'",
+                'ComparisonError': "outcome(ref_numeric_parse(self, packet, packet.raw_data.pos)) == 'ComparisonError'",
+                'ValueError': "outcome(ref_numeric_parse(self, packet, packet.raw_data.pos)) == 'ValueError'"},
+        modifies=['packet.raw_data.pos'],
+        native={'gen': _gen_numeric, 'build': _build_numeric},
+    ),
+]
+
+
+# ---- string and binary fields (C07) ------------------------------------------------------------------------------------
+def _adjuster(slope, intercept):
+    """the repository's own closure, obtained through its XML reader (the oracle uses (slope, intercept) directly)"""
+    import lxml.etree as ET
+    from space_packet_parser.xtce.encodings import DataEncoding
+    el = ET.fromstring(f'<DynamicValue><LinearAdjustment slope="{slope}" intercept="{intercept}"/></DynamicValue>')
+    return DataEncoding._get_linear_adjuster(el)
+
+
+def _mk_lookups(specs):
+    from space_packet_parser.xtce import comparisons as m
+    return [m.DiscreteLookup([m.Comparison(lit, ref, operator=op, use_calibrated_value=uc) for ref, op, lit, uc in crit],
+                             _dec(val)) for crit, val in specs]
+
+
+def _len_spec(rng, want_bits):
+    """a length specification producing want_bits: fixed / lookup / reference (+ adjustment), and the packet items"""
+    kind = rng.choice(['fixed', 'lookup', 'ref', 'ref_adj', 'ref_raw'])
+    items = [['MODE', ['IntParameter', rng.randint(0, 2), None]]]
+    if kind == 'fixed':
+        return {'len': ['fixed', want_bits]}, items
+    if kind == 'lookup':
+        mode = items[0][1][1]
+        entries = []
+        for m in range(3):
+            crit = [['MODE', '==', str(m), rng.choice([True, False])]]
+            entries.append([crit, _enc(float(want_bits if m == mode else rng.choice([0, 8, 24])))])
+        if rng.random() < 0.3:
+            # an earlier entry that also matches wins (first match), possibly with value 0
+            first = rng.choice([0, 16])
+            entries.insert(0, [[['MODE', '>=', '0', True]], _enc(float(first))])
+            return {'len': ['lookup', entries], 'expect_bits': first}, items
+        return {'len': ['lookup', entries]}, items
+    if kind == 'ref':
+        items.append(['LEN', ['IntParameter', want_bits, None]])
+        return {'len': ['ref', 'LEN', True, None]}, items
+    if kind == 'ref_raw':
+        items.append(['LEN', ['FloatParameter', _enc(float(want_bits) * 2 + 1), want_bits]])
+        return {'len': ['ref', 'LEN', False, None]}, items
+    # reference in bytes through a linear adjustment slope*x + intercept
+    slope = rng.choice([8, 1, 2])
+    intercept = want_bits % slope
+    x = (want_bits - intercept) // slope
+    cal = rng.choice([True, False])
+    if cal:
+        items.append(['LEN', [rng.choice(['IntParameter', 'FloatParameter']), _enc(float(x)) if False else x, 99]])
+    else:
+        items.append(['LEN', ['FloatParameter', _enc(123.5), x]])
+    return {'len': ['ref', 'LEN', cal, [slope, intercept]]}, items
+
+
+def _gen_binary(rng, tier, variant):
+    """binary fields of 0..40 bits (whole and partial bytes) at bit offsets 0..15, length fixed / looked up (first
+    match, value 0 included) / referenced raw or calibrated (int- and float-valued) with and without linear adjustment;
+    packets long enough, exactly long enough and too short"""
+    for _ in range(500 if tier == 'quick' else 8000):
+        L = rng.choice([0, 1, 3, 7, 8, 9, 12, 16, 17, 24, 31, 32, 40])
+        off = rng.choice([0, 0, 1, 4, 7, 8, 11])
+        spec, items = _len_spec(rng, L)
+        eff = spec.get('expect_bits', L)
+        nbytes = max(0, (off + eff + 7) // 8 + rng.choice([0, 0, 1, -1]))
+        buf = bytes(rng.getrandbits(8) for _ in range(nbytes))
+        yield {'spec': spec, 'items': items, 'off': off, 'buf': buf.hex()}
+
+
+def _mk_binary(r):
+    from space_packet_parser.xtce import encodings as e
+    k = r['spec']['len']
+    if k[0] == 'fixed':
+        return e.BinaryDataEncoding(fixed_size_in_bits=k[1]), None
+    if k[0] == 'lookup':
+        return e.BinaryDataEncoding(size_discrete_lookup_list=_mk_lookups(k[1])), None
+    adj = k[3]
+    return e.BinaryDataEncoding(size_reference_parameter=k[1], use_calibrated_value=k[2],
+                                linear_adjuster=_adjuster(*adj) if adj else None), adj
+
+
+def _build_binary(r):
+    def make():
+        enc, adj = _mk_binary(r)
+        return {'self': enc, 'packet': _mk_pkt(r), 'adj': adj}
+    return {'make': make, 'call_with': ['self', 'packet']}
+
+
+TEXTS = ['', 'A', 'Hello', 'x y', 'é', 'Ωmega', 'AB\x00C']
+
+
+def _gen_string(rng, tier, variant):
+    """string fields: encodings US-ASCII / ISO-8859-1 / Windows-1252 / UTF-8 / UTF-16BE / UTF-16LE / UTF-32BE;
+    whole buffer, termination character (hex, in the same encoding) and leading size tag (8 or 16 bits) delimiting;
+    buffer lengths that are and are not whole bytes; bit offsets 0..11; the three length specifications"""
+    encs = ['US-ASCII', 'ISO-8859-1', 'Windows-1252', 'UTF-8', 'UTF-16BE', 'UTF-16LE', 'UTF-32BE']
+    n = 600 if tier == 'quick' else 9000
+    for _ in range(n):
+        enc = rng.choice(encs)
+        text = rng.choice(TEXTS)
+        try:
+            tb = text.encode(enc)
+        except UnicodeEncodeError:
+            text = 'plain'
+            tb = text.encode(enc)
+        delim = rng.choice(['none', 'term', 'lead'])
+        filler = rng.choice([b'', 'zz'.encode(enc)])
+        if delim == 'term':
+            tc = '\x00' if '\x00' not in text else '~'
+            tcb = tc.encode(enc)
+            if tcb in tb and not tb.index(tcb) % len(tcb) == 0:
+                continue
+            payload = tb + tcb + filler
+            extra = {'term': tcb.hex()}
+        elif delim == 'lead':
+            s = rng.choice([8, 16])
+            if len(tb) * 8 >= 2 ** s:
+                continue
+            payload = (len(tb) * 8).to_bytes(s // 8, 'big') + tb + filler
+            extra = {'lead': s}
+        else:
+            payload = tb
+            extra = {}
+        L = len(payload) * 8 - rng.choice([0, 0, 0, 3]) if delim == 'none' and enc in ('US-ASCII', 'ISO-8859-1') else len(payload) * 8
+        if L <= 0:
+            L = 8
+            payload = b'A'
+        off = rng.choice([0, 0, 3, 8, 11])
+        spec, items = _len_spec(rng, L)
+        if spec.get('expect_bits', L) == 0 and delim != 'none':
+            continue
+        total_bits = off + len(payload) * 8
+        nbytes = (total_bits + 7) // 8 + rng.choice([0, 1])
+        val = int.from_bytes(payload, 'big') << (nbytes * 8 - off - len(payload) * 8)
+        noise = (rng.getrandbits(off) << (nbytes * 8 - off)) if off else 0
+        buf = (val | noise).to_bytes(nbytes, 'big')
+        d = {'spec': spec, 'items': items, 'off': off, 'buf': buf.hex(), 'enc': enc}
+        d.update(extra)
+        yield d
+
+
+def _mk_string(r):
+    from space_packet_parser.xtce import encodings as e
+    k = r['spec']['len']
+    kw = dict(encoding=r['enc'], termination_character=r.get('term'), leading_length_size=r.get('lead'))
+    adj = None
+    if k[0] == 'fixed':
+        kw['fixed_raw_length'] = k[1]
+    elif k[0] == 'lookup':
+        kw['discrete_lookup_length'] = _mk_lookups(k[1])
+    else:
+        adj = k[3]
+        kw.update(dynamic_length_reference=k[1], use_calibrated_value=k[2],
+                  length_linear_adjuster=_adjuster(*adj) if adj else None)
+    return e.StringDataEncoding(**kw), adj
+
+
+def _build_string(r):
+    def make():
+        enc, adj = _mk_string(r)
+        return {'self': enc, 'packet': _mk_pkt(r), 'adj': adj}
+    return {'make': make, 'call_with': ['self', 'packet']}
+
+
+_BIN_REF = 'ref_binary_parse(self, packet, old(packet.raw_data.pos), adj)'
+_STR_REF = 'ref_string_parse(self, packet, old(packet.raw_data.pos), adj)'
+
+CONTRACTS += [
+    Contract(
+        target='xtce.encodings.BinaryDataEncoding.parse_value',
+        props=['C07', 'C14', 'C01'],
+        params={}, native_only=PENDING,
+        requires=['packet.raw_data.pos >= 0'],
+        ensures={
+            'value': f"bytes(result) == {_BIN_REF}[0] and cls_is(result, 'BinaryParameter') and result.raw_value == {_BIN_REF}[0]",
+            'cursor': f'packet.raw_data.pos == {_BIN_REF}[1]',
+        },
+        raises={'ValueError': "outcome(ref_binary_parse(self, packet, packet.raw_data.pos, adj)) == 'ValueError'",
+                'KeyError': "outcome(ref_binary_parse(self, packet, packet.raw_data.pos, adj)) == 'KeyError'",
+                'ComparisonError': "outcome(ref_binary_parse(self, packet, packet.raw_data.pos, adj)) == 'ComparisonError'"},
+        modifies=['packet.raw_data.pos'],
+        native={'gen': _gen_binary, 'build': _build_binary},
+    ),
+    Contract(
+        target='xtce.encodings.StringDataEncoding.parse_value',
+        props=['C07', 'C14', 'C01'],
+        params={}, native_only=PENDING,
+        requires=['packet.raw_data.pos >= 0'],
+        ensures={
+            'value': f"str(result) == {_STR_REF}[0] and cls_is(result, 'StrParameter')",
+            'raw': f'result.raw_value == {_STR_REF}[1] and type(result.raw_value) is bytes',
+            'cursor': f'packet.raw_data.pos == {_STR_REF}[2]',
+        },
+        raises={'ValueError': "outcome(ref_string_parse(self, packet, packet.raw_data.pos, adj)) == 'ValueError'",
+                'KeyError': "outcome(ref_string_parse(self, packet, packet.raw_data.pos, adj)) == 'KeyError'",
+                'UnicodeDecodeError': "outcome(ref_string_parse(self, packet, packet.raw_data.pos, adj)) == 'UnicodeDecodeError'",
+                'ComparisonError': "outcome(ref_string_parse(self, packet, packet.raw_data.pos, adj)) == 'ComparisonError'"},
+        modifies=['packet.raw_data.pos'],
+        native={'gen': _gen_string, 'build': _build_string},
+    ),
+]
